@@ -150,6 +150,8 @@ fn gen_node(rng: &mut Rng, ty: &Ty) -> Node {
             }
         }
         Ty::Any | Ty::Ignored => sc("anything", Sty::Plain),
+        Ty::Spanned(t) => gen_node(rng, t),
+        Ty::Tree => sc("anything", Sty::Plain),
     }
 }
 fn text_is_empty(t: &str) -> bool {
@@ -417,7 +419,7 @@ fn interp(ty: &Ty, n: &Node) -> Result<Option<Val>, ()> {
                 _ => return Err(()),
             }
         }
-        Ty::Any | Ty::Ignored => return Ok(None),
+        Ty::Any | Ty::Ignored | Ty::Spanned(_) | Ty::Tree => return Ok(None),
     }))
 }
 
